@@ -341,6 +341,12 @@ func runByteFamilies(emit func(string)) {
 				emit(t)
 			}
 		}
+		cm := "/*" + strings.Repeat("A", k) + "*/"
+		for _, t := range []string{"1 or" + cm + "1=1", cm + "1", "1" + cm + "union" + cm + "select 1", "x'" + cm + "or 1=1", "/*!" + strings.Repeat("A", k) + "*/1",
+			"--" + strings.Repeat("A", k) + "\n1 or 1=1", "#" + strings.Repeat("A", k) + "\nunion select 1", "[" + strings.Repeat("A", k) + "] or 1=1",
+			"`" + strings.Repeat("A", k) + "` or 1=1", "@" + strings.Repeat("A", k) + " or 1=1", "0x" + strings.Repeat("A", k) + " or 1=1", strings.Repeat("1", k) + " or 1=1"} {
+			emit(t)
+		}
 		tag := "$" + strings.Repeat("a", k) + "$"
 		for _, t := range []string{tag + "x" + tag + " or 1=1", tag + " or 1=1", "1 or " + tag + "x" + tag + "=1", tag + "x$" + strings.Repeat("a", k) + "b" + tag} {
 			emit(t)
@@ -426,6 +432,33 @@ func twinSweep(seeds []string, structural string, emit func(string)) {
 				emit(sd[:i] + tw + sd[i+1:])
 				emit(sd[:i] + tw + sd[i:])
 				emit(sd[:i+1] + tw + sd[i+1:])
+			}
+		}
+	}
+}
+
+// longPadded: short payloads followed (or preceded) by padding up to lengths around the usual buffer sizes, then
+// a tail that changes the reading: a detector that silently analyses only a prefix (or a suffix) of its input
+// disagrees with the model on these.
+func longPadded(emit func(string)) {
+	// the model scans lists (quadratic in the number of tokens), so the padding is one long word, or blanks up to 4 kB
+	for _, n := range []int{1023, 1024, 1025, 4095, 4096, 4097, 8193, 16385} {
+		for _, pad := range []string{"a", " "} {
+			if pad == " " && n > 4097 {
+				continue
+			}
+			fill := func(k int) string {
+				if k <= 0 {
+					return ""
+				}
+				return strings.Repeat(pad, k)
+			}
+			for _, head := range []string{"1 or 1=1 ", "1 union select 1 ", "x' or 'a'='a "} {
+				for _, tail := range []string{" x", "'", " --", " union select 1"} {
+					emit(head + fill(n-len(head)-len(tail)) + tail)
+					emit(fill(n-len(head)-len(tail)) + " " + head + tail)
+					emit(head + fill(n-len(head)) + tail)
+				}
 			}
 		}
 	}
